@@ -102,7 +102,7 @@ def PrimVal.show : PrimVal → Name
   | .i8 n | .i16 n | .i32 n | .i64 n => showInt n
   | .f32 _ t | .f64 _ t => t
   | .bool b => if b then "true".toList else "false".toList
-  | .char c => [Char.ofNat c]
+  | .char c => [c]
   | .ptr => "ptr".toList
   | .none => "None".toList
 
